@@ -40,6 +40,101 @@ inductive Tiled (rb : RB) (line : Int) : Int → Prop
 /-- Every line of the buffer is tiled by runs. -/
 def FlushWF (rb : RB) : Prop := ∀ line, 0 ≤ line → line < rb.lines → Tiled rb line 0
 
+/-! ### A decision procedure for `FlushWF` (used for the non-vacuity examples) -/
+
+def charOKb (cp : Int) : Bool :=
+  decide (Utf8.nextUtf8 (Utf8.put cp.toNat) 0 (some (Utf8.put cp.toNat).length) =
+    some ⟨(Utf8.put cp.toNat).length, cp.toNat⟩) && decide (Utf8.wcwidth cp.toNat = 1)
+
+def textOKb (cell : Cell) : Bool :=
+  match decode cell.text with
+  | some cs => decide (0 ≤ cell.offs) && decide (cell.offs + cell.cols ≤ chCols cs)
+  | none => false
+
+def runAtB (rb : RB) (line col : Int) : Bool :=
+  let cell := rb.cell line col
+  decide (cell.state ≠ .cont) && decide (1 ≤ cell.cols) && decide (col + cell.cols ≤ rb.cols) &&
+  ((List.range (cell.cols - 1).toNat).all fun j =>
+    decide ((rb.cell line (col + 1 + j)).state = .cont) && decide ((rb.cell line (col + 1 + j)).cols = col)) &&
+  (!(decide (cell.state = .line) || decide (cell.state = .char)) || decide (cell.cols = 1)) &&
+  (!decide (cell.state = .line) || (decide (1 ≤ cell.lmask) && decide (cell.lmask < 256))) &&
+  (!decide (cell.state = .char) || charOKb cell.cp) &&
+  (!decide (cell.state = .text) || textOKb cell)
+
+def tiledB (rb : RB) (line : Int) : Nat → Int → Bool
+  | 0, col => decide (col = rb.cols)
+  | n + 1, col =>
+    decide (col = rb.cols) ||
+    (decide (col < rb.cols) && runAtB rb line col && tiledB rb line n (col + (rb.cell line col).cols))
+
+def flushWFb (rb : RB) : Bool :=
+  (List.range rb.lines.toNat).all fun l => tiledB rb (l : Int) rb.cols.toNat 0
+
+theorem runAt_of_runAtB {rb : RB} {line col : Int} (h : runAtB rb line col = true) : RunAt rb line col := by
+  unfold runAtB at h
+  simp only [Bool.and_eq_true, decide_eq_true_eq, List.all_eq_true, List.mem_range, Bool.or_eq_true,
+    Bool.not_eq_true', decide_eq_false_iff_not] at h
+  obtain ⟨⟨⟨⟨⟨⟨⟨h1, h2⟩, h3⟩, h4⟩, h5⟩, h6⟩, h7⟩, h8⟩ := h
+  refine ⟨h1, h2, h3, ?_, ?_, ?_, ?_, ?_⟩
+  · intro k hk1 hk2
+    have := h4 (k - col - 1).toNat (by omega)
+    rw [show col + 1 + ((k - col - 1).toNat : Int) = k by omega] at this
+    exact this
+  · intro hs
+    cases h5 with
+    | inl h =>
+      simp only [Bool.or_eq_false_iff, decide_eq_false_iff_not] at h
+      cases hs with
+      | inl a => exact absurd a h.1
+      | inr a => exact absurd a h.2
+    | inr h => exact h
+  · intro hs
+    cases h6 with
+    | inl h => exact absurd hs h
+    | inr h => exact h
+  · intro hs
+    cases h7 with
+    | inl h => exact absurd hs h
+    | inr h =>
+      unfold charOKb at h
+      simp only [Bool.and_eq_true, decide_eq_true_eq] at h
+      exact h
+  · intro hs
+    cases h8 with
+    | inl h => exact absurd hs h
+    | inr h =>
+      unfold textOKb at h
+      unfold TextOK
+      cases hd : decode (rb.cell line col).text with
+      | none => rw [hd] at h; cases h
+      | some cs =>
+        rw [hd] at h
+        simp only [Bool.and_eq_true, decide_eq_true_eq] at h
+        exact ⟨cs, rfl, h.1, h.2⟩
+
+theorem tiled_of_tiledB {rb : RB} {line : Int} : ∀ (n : Nat) (col : Int), tiledB rb line n col = true →
+    Tiled rb line col := by
+  intro n
+  induction n with
+  | zero =>
+    intro col h
+    simp only [tiledB, decide_eq_true_eq] at h
+    rw [h]; exact Tiled.done
+  | succ k ih =>
+    intro col h
+    simp only [tiledB, Bool.or_eq_true, decide_eq_true_eq, Bool.and_eq_true] at h
+    cases h with
+    | inl h => rw [h]; exact Tiled.done
+    | inr h => exact Tiled.run h.1.1 (runAt_of_runAtB h.1.2) (ih _ h.2)
+
+theorem flushWF_of_flushWFb {rb : RB} (h : flushWFb rb = true) : FlushWF rb := by
+  intro line h0 h1
+  unfold flushWFb at h
+  simp only [List.all_eq_true, List.mem_range] at h
+  have := h line.toNat (by omega)
+  rw [show ((line.toNat : Nat) : Int) = line by omega] at this
+  exact tiled_of_tiledB _ _ this
+
 theorem Tiled.le_cols {rb : RB} {line col : Int} (h : Tiled rb line col) : col ≤ rb.cols := by
   induction h with
   | done => omega
